@@ -17,3 +17,8 @@ CLAIMS["C04"] = ("proof",
   "Every cleartext send and receive path (zero-length frames included) feeds the frame header and payload to the handshake digest exactly once while the digest is not frozen; digests are frozen once; the first sealed/opened frame's AAD is finalSend||finalRecv||header (mirrored on receipt).",
   PROOF_NOTE + " SHA-256 collision resistance and the AEAD are assumed; the digest is modelled by its update count, not byte-wise.",
   "deductive verification: WP over go/ssa + SMT (z3/cvc5)", "DESIGN.md 4 (C04)")
+
+CLAIMS["C15"] = ("proof",
+  "ExportCryptoState refuses unless every clean-boundary condition holds and accepts when all hold; the blob layout is proved byte by byte (magic, version, flag bits, key, IVs, counters, three length-prefixed trailers); NewStreamWithCryptoState rejects short / mis-tagged / wrong-version / truncated blobs, restores every crypto field from the blob into fresh storage with empty framing state and without regenerating IV or counters; the lemma export_import_inverse closes import(export(s)) = s on the crypto state.",
+  PROOF_NOTE + " bytes.Buffer and encoding/binary.Write are assumed contracts (/verif/specs/buffer.spec). That the peer keeps accepting frames after a hand-off follows from equal crypto state plus the C12/C02 contracts (not re-proved end to end).",
+  "deductive verification: WP over go/ssa + SMT (z3/cvc5)", "DESIGN.md 4 (C15)")
